@@ -59,7 +59,8 @@ def case_strategy(draw):
         k = draw(st.integers(1, max(1, n // 4)))
         holes[name] = sorted(draw(st.sets(st.integers(0, n - 1), min_size=1, max_size=k)))
     other = draw(st.sampled_from(["ignore", "raise", "Drop", "", "omit", None, 0, True])) if action == "other" else None
-    return {"design": d, "frame": spec, "holes": holes, "na_action": action if action != "other" else other, "is_other": action == "other"}
+    return {"design": d, "frame": spec, "holes": holes, "na_action": action if action != "other" else other, "is_other": action == "other",
+            "only_used_columns": draw(st.integers(0, 3)) == 0}
 
 
 def used_columns(d):
@@ -92,7 +93,13 @@ def judge(ctx, case):
     d, holes, action = case["design"], case["holes"], case["na_action"]
     formula = d["formula"]
     spec = with_holes(case["frame"], holes)
+    if case.get("only_used_columns"):
+        keep = used_columns(d)
+        spec = {"cols": [c for c in spec["cols"] if c["name"] in keep], "index": spec.get("index")}
+        holes = {k: v for k, v in holes.items() if k in keep}
+        case = dict(case, frame={"cols": [c for c in case["frame"]["cols"] if c["name"] in keep], "index": case["frame"].get("index")}, holes=holes)
     frame = frames.build(spec)
+    pristine = frame.copy(deep=True)
     ns = dict(rich.namespace_for(frame), hsum=hsum)
     used = used_columns(d)
     n = len(frame)
@@ -108,7 +115,10 @@ def judge(ctx, case):
 
     def build(fr, act):
         with core.Guard():
-            return design_matrices(formula, fr, na_action=act, extra_namespace=ns)
+            out = design_matrices(formula, fr, na_action=act, extra_namespace=ns)
+        if fr is frame and not (list(frame.columns) == list(pristine.columns) and frame.index.equals(pristine.index) and frame.equals(pristine)):
+            ctx.fail("caller_frame", case, f"{formula!r} with na_action={act!r} modified the caller's frame ({len(pristine)} -> {len(frame)} rows)", "modified")
+        return out
 
     # the generated formulas are valid on the frame without holes: an exception there is a failure of the
     # machinery that decides which columns the formula uses, not a rejection of the formula
